@@ -6,7 +6,7 @@
 From Coq Require Import List NArith.
 From GM Require Import Base.Lts Codec.Packet Session.Store Client.Future Client.Client Client.ClientSpec
   Client.ClientWitness Client.ClientInvCtl Client.ClientInvOwed Client.ClientInvHs Client.ClientC10
-  Client.TraceScan Client.ClientScanProofs.
+  Client.TraceScan Client.ClientScanProofs Client.ClientScan2.
 Import ListNotations.
 Open Scope N_scope.
 
@@ -66,6 +66,23 @@ Theorem C10_scan_exactly_once_sound : forall es s, run step init es = Some s ->
   (g_compfail (g s) = false -> g_delfail (g s) = false -> hs_twice (scan_hs es) = None).
 Proof. intros es s H. split; [exact (scan_hs_accepted es s H)|exact (scan_hs_once es s H)]. Qed.
 Print Assumptions C10_scan_exactly_once_sound.
+
+(* callback error => the connection is over: the scanner's two flags are the model's ghost flags, and once
+   the die body is done a callback error implies that conn.Close was called (or a Send/Receive had failed) *)
+Theorem C10_scan_error_closes_sound : forall es s, run step init es = Some s ->
+  scan_close es = CScan (g_cbfail (g s)) (g_dead (g s)) /\
+  (k_dpc (k s) = DDone -> error_closes_ok (scan_close es) = true).
+Proof. intros es s H. split; [exact (scan_close_accepted es s H)|exact (scan_close_ok es s H)]. Qed.
+Print Assumptions C10_scan_error_closes_sound.
+
+(* a stored QoS 2 message is released by its own PUBREL and by nothing else: the lockstep scanner (incoming
+   store rebuilt from the observed Save/Delete/Reset calls, a Delete counting only at the end of a PUBREL
+   sequence; every LookupPacket result compared with it) never fails on an accepted trace and ends with the
+   model's incoming store *)
+Theorem C10_scan_release_sound : forall es s, run step init es = Some s ->
+  exists y, scan_rel [] YInit es = Some (s_in (sess s), y) /\ yrel y (k_ppc (k s)).
+Proof. exact scan_rel_accepted. Qed.
+Print Assumptions C10_scan_release_sound.
 
 (* non-vacuity: the witnesses above are accepted traces that reach the states in question; a complete
    QoS 2 handshake in default mode with exactly one delivery: *)
